@@ -141,7 +141,6 @@ func Event(s string)             { fmt.Println("VERIF-EVENT", s) }
 func Assumption(s string)        {}
 func Symbolic() bool             { return false }
 func Yield()                     { runtime.Gosched() }
-func Quiesce() int               { time.Sleep(25 * time.Millisecond); return 0 }
 func Goroutines() int            { return runtime.NumGoroutine() }
 func BlockedDesc() string        { return "" }
 func WatchOn()                   {}
@@ -160,3 +159,42 @@ func FixedSchedule(on bool) {}
 func CAKey(cert any, key any) {}
 
 func AdvanceClock(seconds int64) {}
+
+// Quiesce, natively: wait until the other goroutines have had time to settle.
+// Quiesce calls nest (a hook inside a handler calls it while the harness's main
+// goroutine is already waiting): as in the engine, an outer call returns only
+// after every call that started later has returned and the goroutines have had
+// another settling period.
+var (
+	qmu      sync.Mutex
+	qseq     int
+	qactive  = map[int]bool{}
+	qlastEnd time.Time
+)
+
+const settle = 30 * time.Millisecond
+
+func Quiesce() int {
+	qmu.Lock()
+	qseq++
+	me := qseq
+	qactive[me] = true
+	qmu.Unlock()
+	for {
+		time.Sleep(settle)
+		qmu.Lock()
+		later := false
+		for s := range qactive {
+			if s > me {
+				later = true
+			}
+		}
+		if !later && time.Since(qlastEnd) >= settle {
+			delete(qactive, me)
+			qlastEnd = time.Now()
+			qmu.Unlock()
+			return 0
+		}
+		qmu.Unlock()
+	}
+}
